@@ -2,6 +2,15 @@
 """Regenerates MANIFEST.json from the table below (kept in one place so it stays valid)."""
 import json
 CLAIMED = {
+ "C15": dict(tech="model checking: complete enumeration of EnableCompression pairs x client offers x server replies on the real Dialer/Upgrader (in-process handshake) followed by message flow under every sequence of <=3 write-compression setting calls; compression state observed behaviourally",
+             text="Both ends' 'accepts compressed' (verdict on a conformant RSV1 message from the independent encoder) and 'compresses' (RSV1 on a message written with compression enabled) must equal 'the 101 announced permessage-deflate with both no_context_takeover parameters'; all messages round-trip under every toggle sequence.",
+             note="a connection is never required to compress", ref="§4 C15"),
+ "C16": dict(tech="model checking / fault enumeration: every transport operation of every dial path (direct, HTTP/HTTPS CONNECT, SOCKS5, with/without TLS; in-process peers over a deterministic synchronous pipe) and of Upgrade is a choice point with answers ok/error/timeout/EOF; negative replies; timeout settings",
+             text="Failure => nil Conn, error, every dialed/hijacked connection closed; success => open, no deadline armed; with a limit every raw Read/Write runs under a deadline no later than it (TLS first-hop handshake exempt, bounded by the context).",
+             note="deadline-call faults may be survived by third-party proxy code; Read/Write faults must fail the handshake", ref="§4 C16"),
+ "C17": dict(tech="model checking: complete enumeration of (stream, split between hijacked buffer and socket, ReadBufferSize, hijacked reader size, socket chunking) on the real Upgrader and of every split of response+frames on the real Dialer",
+             text="For every cell the messages read from the returned Conn must equal the stream's messages per the independent decoder; the hijacked bufio.Reader is layered over the same connection object Hijack returns, as net/http does.",
+             note="how bytes are moved (reuse/wrap/copy) is not constrained", ref="§4 C17"),
  "C12": dict(tech="model checking: exhaustive deviation-bounded enumeration of upgrade requests from the handshake grammar x Upgrader settings x responseHeader maps on the real Upgrader; independent RFC 6455/7230 reference predicate and line-level response parser",
              text="All single and pairwise (quick) / triple (thorough) deviations from the canonical valid request are enumerated completely, plus every byte value 0..255 at three positions of application header values. Success iff valid (on decided inputs); 101 response parsed independently (accept digest, subprotocol membership, extension announcement, no injected line); failures: HandshakeError, no hijack, 403/426.",
              note="don't-care classes in DESIGN.md §6; canonical-key request representation of net/http is the input domain", ref="§4 C12"),
